@@ -11,9 +11,12 @@ func init() { registry["C15"] = genC15 }
 
 // abstract statement kinds; %m is replaced by a fresh marker, %n by a small int
 var c15Kinds = []string{
-	"P%m", "V%n", "DP%m", "DB%m", "DF", "G1P%m", "G0P%m", "G1B%m", "R%n", "Q1%n", "Q0%n", "X%m", "Z1%m", "Z0%m", "F", "Y%n",
-	"C0", "C1", "DC0", "DC1", "G1C1",
+	"P%m", "V%n", "DP%m", "DB%k.%m", "DF", "G1P%m", "G0P%m", "G1B%k.%m", "R%n", "Q1%n", "Q0%n", "X%k.%m", "Z1%k.%m", "Z0%k.%m", "F", "Y%n",
+	"C0", "C1", "DC0", "DC1", "G1C1", "W1%n", "W0%n", "Nzz%m", "XStopIterErr.%m",
 }
+
+// error kinds a body can leave with (every built-in error prototype that has a constructor)
+var c15ErrKinds = []string{"Err", "StopIterErr", "ValueErr", "TypeErr", "ZeroDivisionErr", "NameErr", "NoPropErr", "AssertionErr", "NotImplementedErr", "SyntaxErr"}
 
 var c15True = []string{"true", "1", "'a", "[0]", "(1 == 1)"}
 var c15False = []string{"false", "0", "nil", "\"\"", "[]", "(1 == 2)"}
@@ -30,7 +33,8 @@ func c15DSrc(d string) string {
 	case 'P':
 		return fmt.Sprintf("%q.p", d[1:])
 	case 'B':
-		return fmt.Sprintf("boom(%q)", d[1:])
+		km := strings.SplitN(d[1:], ".", 2)
+		return fmt.Sprintf("boom(%s, %q)", km[0], km[1])
 	case 'F':
 		return "1/0"
 	case 'C':
@@ -54,9 +58,15 @@ func c15StmtSrc(c *Ctx, s string) string {
 	case 'Q':
 		return "return " + s[2:] + " if " + c15Cond(c, s[1])
 	case 'X':
-		return fmt.Sprintf("raise Err.new(%q)", s[1:])
+		km := strings.SplitN(s[1:], ".", 2)
+		return fmt.Sprintf("raise %s.new(%q)", km[0], km[1])
 	case 'Z':
-		return fmt.Sprintf("raise Err.new(%q) if %s", s[2:], c15Cond(c, s[1]))
+		km := strings.SplitN(s[2:], ".", 2)
+		return fmt.Sprintf("raise %s.new(%q) if %s", km[0], km[1], c15Cond(c, s[1]))
+	case 'W':
+		return "yield " + s[2:] + " if " + c15Cond(c, s[1])
+	case 'N':
+		return s[1:]
 	case 'F':
 		return "1/0"
 	case 'C':
@@ -69,7 +79,7 @@ func c15StmtSrc(c *Ctx, s string) string {
 
 func c15Program(c *Ctx, fns [][]string) (string, string) {
 	var sb strings.Builder
-	sb.WriteString("boom := {|m| raise Err.new(m)}\n")
+	sb.WriteString("boom := {|k, m| raise k.new(m)}\n")
 	enc := []string{}
 	for i, body := range fns {
 		parts := []string{}
@@ -108,7 +118,7 @@ func c15NT(body []string) bool {
 		if s[0] == 'D' || s[0] == 'G' {
 			hasDefer = true
 		}
-		if strings.ContainsRune("RQXZFC", rune(s[0])) {
+		if strings.ContainsRune("RQXZFCWN", rune(s[0])) {
 			hasExit = true
 		}
 	}
@@ -116,11 +126,12 @@ func c15NT(body []string) bool {
 }
 
 func genC15(c *Ctx) {
-	helpers := [][]string{{"Ph", "DPhd", "V5"}, {"DPkd", "Pk", "Xk", "DPnever"}}
+	helpers := [][]string{{"Ph", "DPhd", "V5"}, {"DPkd", "Pk", "XErr.k", "DPnever"}}
 	mk := 0
 	inst := func(kind string) string {
 		mk++
 		k := strings.Replace(kind, "%m", fmt.Sprintf("m%d", mk), 1)
+		k = strings.Replace(k, "%k", c.Rng.Pick(c15ErrKinds), 1)
 		k = strings.Replace(k, "%n", fmt.Sprint(mk%7+1), 1)
 		return k
 	}
